@@ -35,6 +35,10 @@ ORACLE = [
 ]
 
 
+# an alternative unit per documented unit and the exact factor documented unit -> alternative... applied to the INTERNAL value
+ALT_UNIT = {"GPa": ("rydberg / bohr^3", 1), "km/s": ("m/s", 1000), "ang3": ("bohr^3", 1)}
+
+
 def unit_constants():
     import scipy.constants as sc
     pc = sc.physical_constants
@@ -158,6 +162,17 @@ def main():
             del sink[:]
             rw.ResultsWriter(vb).write({"keyword": "bm_V", "fname": "my_bulk.txt", "unit": "rydberg / bohr^3"})
             out["override"] = list(sink)
+            # a unit override for every rule (last alias of each group), both bases
+            for base, tag in ((vb, "tv"), (pb, "tp")):
+                for grp, pattern, unit, what in ORACLE:
+                    if grp[-1] not in registry:
+                        continue
+                    del sink[:]
+                    try:
+                        rw.ResultsWriter(base).write({"keyword": grp[-1], "unit": ALT_UNIT[unit][0]})
+                        out[("unit-override", tag, grp[0])] = ("ok", list(sink))
+                    except Exception as e:
+                        out[("unit-override", tag, grp[0])] = ("raise", e)
             # write_output dispatch
             del sink[:]
             calc.__dict__["config"] = {"output": {"pressure_base": ["cij", "v"], "volume_base": ["p", {"keyword": "G_V"}]}}
@@ -232,6 +247,29 @@ def main():
                         ref_calls = sig
                     elif sig != ref_calls:
                         fails.append("%s: alias %s writes something else than %s" % (tag, kw, grp[0]))
+        for base, tag in ((vb, "tv"), (pb, "tp")):
+            for grp, pattern, unit, what in ORACLE:
+                exp = expected(base, what)
+                rec = res.get(("unit-override", tag, grp[0]))
+                if exp is None or rec is None:
+                    continue
+                status, calls = rec
+                if status != "ok":
+                    fails.append("%s/%s with a unit override raises %s" % (tag, grp[-1], calls))
+                    continue
+                fac = ALT_UNIT[unit][1]
+                if isinstance(exp, dict):
+                    want = {pattern.format(base=tag, ij="%d%d" % k.v): numpy.asarray(v, dtype=object) * fac for k, v in exp.items()}
+                else:
+                    want = {pattern.format(base=tag): numpy.asarray(exp, dtype=object) * fac}
+                got = {c[1]: c[2] for c in calls}
+                if set(got) != set(want):
+                    fails.append("%s/%s with a unit override writes %s" % (tag, grp[-1], sorted(got)[:3]))
+                    continue
+                for fname in want:
+                    if not same_array(got[fname], want[fname]):
+                        fails.append("%s/%s: unit override '%s' is not honoured (content of %s)" % (tag, grp[-1], ALT_UNIT[unit][0], fname))
+                        break
         ov = res["override"]
         if len(ov) != 1 or ov[0][1] != "my_bulk.txt" or not same_array(ov[0][2], vb.bulk_modulus_voigt):
             fails.append("fname / unit override of a dict entry is not honoured")
@@ -387,6 +425,22 @@ def replay(chk, cc, rw, rng, reason):
         if got.shape != kv[:-4, :].shape or numpy.abs(got - kv[:-4, :]).max() > 1e-10 * numpy.abs(kv).max():
             chk.violation("writer:override-content", "file my_bm_tp.txt (unit override rydberg / bohr^3) does not hold K_V in that unit", {})
             return
+        # unit overrides on scalar rules of each documented unit
+        for kw, unit_o, fac, prop in (("vp", "m/s", 1000.0, "primary_velocities"), ("vs", "m/s", 1000.0, "secondary_velocities"),
+                                      ("G_R", "rydberg / bohr^3", 1.0, "shear_modulus_reuss")):
+            for base, tag in ((vb, "tv"), (pb, "tp")):
+                for f in os.listdir(tmp):
+                    os.unlink(os.path.join(tmp, f))
+                rw.ResultsWriter(base).write({"keyword": kw, "unit": unit_o, "fname": "ovr.txt"})
+                val = numpy.asarray(getattr(vb, prop), dtype=float)
+                if tag == "tp":
+                    val = real_v2p(val, q.volume_base.pressures, q.pressure_base.p_array)
+                got = pandas.read_table(os.path.join(tmp, "ovr.txt"), sep=r"\s+", index_col=0, header=0).to_numpy()
+                w = val[:-4, :] * fac
+                if got.shape != w.shape or numpy.abs(got - w).max() > 1e-10 * numpy.abs(w).max():
+                    chk.violation("writer:unit-override:%s" % kw, "keyword %s with unit override %r (%s base): the file holds %.6g where the in-memory "
+                                  "value in that unit is %.6g" % (kw, unit_o, tag, got.ravel()[0], w.ravel()[0]), dict(keyword=kw, unit=unit_o))
+                    return
     except Exception as e:
         chk.violation("writer:raises", "output writing raises %s: %s" % (type(e).__name__, str(e)[:140]), {})
         return
